@@ -486,6 +486,26 @@ namespace DFS
       {
 	throw DFS::FailedToGuessFormat("all known formats have been eliminated");
       }
+    if (it->geometry.heads == 1)
+      {
+	// A two-sided candidate is still here only because we found a
+	// valid catalog where its second side should begin.  Prefer it
+	// to the one-sided candidate with the same tracks (which is
+	// smaller and so was chosen above), since otherwise the second
+	// side of a two-sided non-interleaved image would never be
+	// attached.
+	auto two_sided =
+	  std::find_if(possible.cbegin(), possible.cend(),
+		       [&it](const DFS::ImageFileFormat& ff)
+		       {
+			 return ff.geometry.heads == 2 &&
+			   ff.geometry.cylinders == it->geometry.cylinders &&
+			   ff.geometry.sectors == it->geometry.sectors &&
+			   ff.interleaved == it->interleaved;
+		       });
+	if (two_sided != possible.cend())
+	  it = two_sided;
+      }
     if (DFS::verbose)
       {
 	std::cerr << "Selected the "
